@@ -290,6 +290,19 @@ def e2e_cases(ctx, rng, count):
                 ast_ = now.replace(microsecond=0) - datetime.timedelta(seconds=age)
                 o = [x for x in (q, "start=" + ast_.strftime("%Y-%m-%dT%H:%M:%SZ"), "depth=60") if x]
                 out.append((stream, f"/dash/live/{stream}/hand_made.mpd?" + "&".join(o), now))
+    # fixed: the media requests are made a few seconds AFTER the manifest request (still well inside the time-shift
+    # buffer) – in the middle of a day, and across the instants where a symbolic start changes its meaning
+    # (today: 00:01:00; month / year (the default): 00:00:00 on the 2nd): what the manifest handed out must still
+    # resolve to the same availabilityStartTime
+    for k, (stream, st_, now_, delay) in enumerate([
+            ("bbb", "today", (2024, 5, 7, 0, 0, 57, 500000), 5), ("tears", "year", (2024, 1, 1, 23, 59, 58, 0), 5),
+            ("syn1", "month", (2024, 3, 1, 23, 59, 58, 250000), 4), ("bbb", None, (2024, 1, 1, 23, 59, 57, 0), 6),
+            ("syn9", "epoch", (2024, 6, 30, 23, 59, 58, 0), 4), ("syn3", "2024-02-10T17:45:12Z", (2024, 2, 29, 23, 59, 59, 0), 3),
+            ("tears", "today", (2024, 7, 9, 13, 0, 0, 0), 7)]):
+        for q in ("", "timeline=1"):
+            o = [x for x in (q, "start=" + st_ if st_ else "", "depth=120") if x]
+            out.append((stream, f"/dash/live/{stream}/hand_made.mpd?" + "&".join(o),
+                        datetime.datetime(*now_, tzinfo=datetime.timezone.utc), delay))
     # fixed: a whole number of days (plus less than a second) after the start – elapsed time whose
     # seconds-within-the-day component is zero – for midnight and non-midnight starts, symbolic and explicit
     for k, (stream, st_, now_) in enumerate([
@@ -306,7 +319,7 @@ def e2e_cases(ctx, rng, count):
 
 def model_request(track, f, mpd, leeway_us, rep_obj):
     """driver line predicting the handler's decision for fetch `f`"""
-    E = f.now_us - mpd.ast_us
+    E = (f.fetch_now_us or f.now_us) - mpd.ast_us       # availability is judged at the clock of the media request
     tsbd = mpd.tsbd_us // 10 ** 6
     if f.mode == "time":
         tc = f.value
@@ -336,10 +349,13 @@ def ch_segserve(ctx) -> Channel:
     leeway_us = int(OptionsRepository.get_default_options().leeway) * 10 ** 6
     lines, recs = [], []
     with appboot.Clock("2023-01-01T00:00:00Z") as clock:
-        for stream, url, now in e2e_cases(ctx, rng, ctx.scale(44, 500)):
+        for stream, url, now, *rest in e2e_cases(ctx, rng, ctx.scale(44, 500)):
+            delay = rest[0] if rest else 0
+            if delay:
+                ch.count("media_fetched_later_than_manifest")
             trk = segchecks.tracks(app, stream)
             mpd, status, fetches = segchecks.walk_manifest(app, client, clock, stream, url, now, rng,
-                                                           per_rep=ctx.scale(6, 14), want_init=True)
+                                                           per_rep=ctx.scale(6, 14), want_init=True, fetch_delay_s=delay)
             ch.count(f"manifest_status={status}")
             if mpd is None:
                 continue
